@@ -8,6 +8,7 @@ from kindflow import Agg, Node, Const, Doc, Text, TOP, Top
 from mirfacts import callee_path, resolved_id
 from paths import BodyView
 from framework import RuleResult, AnchorMissing
+from prov import strip_casts as strip_casts_
 from rules import e2
 from rules.e2 import last, COMMENT
 
@@ -112,17 +113,24 @@ def r1_no_soft_breaks_between_prose(w):
     cm = [b for b in w.core.find('::convert_markup_impl') if b.def_kind != 'Closure']
     v = BodyView(w, cm[0])
     ok = False
+    why_not = 'no `hardline().repeat_n(..)` found'
     for bi, t in cm[0].calls():
         if (callee_path(t) or '').endswith('repeat_n'):
-            d = v.describe_operand(t['args'][1]) if len(t['args']) > 1 else ''
             a0 = v.pv.peel(v.pv.origins_operand(t['args'][0]))
-            if 'MarkupLine.breaks' in d and all(o[0] == 'call' and (callee_path(v.pv.call_term(o)) or '').endswith('hardline') for o in a0):
+            if not all(o[0] == 'call' and (callee_path(v.pv.call_term(o)) or '').endswith('hardline') for o in a0):
+                continue
+            # the count is a pure copy of MarkupLine.breaks on every path: no min / max / arithmetic / constant in between
+            cnt = v.pv.origins_operand(t['args'][1]) if len(t['args']) > 1 else set()
+            descs = sorted({v.describe(strip_casts_(o)) for o in cnt})
+            if cnt and all(d_.endswith('MarkupLine.breaks') and not d_.startswith(('call:', 'binop:', 'const')) for d_ in descs):
                 ok = True
+            else:
+                why_not = 'the repeat count is %s, not a plain copy of MarkupLine.breaks' % descs
     cons = {'stage': 'per-line loop', 'line_end': 'hardline x MarkupLine.breaks'}
     if ok:
         r.ok(cons, 'mandatory breaks, count copied from the collector')
     else:
-        r.bad(cons, 'convert_markup_impl|line-end', 'line ends are not emitted as hardline repeated MarkupLine.breaks times', cm[0].loc())
+        r.bad(cons, 'convert_markup_impl|line-end', 'line ends are not emitted as hardline repeated MarkupLine.breaks times (%s): a paragraph break would not keep its number of line feeds' % why_not, cm[0].loc())
     # "their own line-feed count": the count is taken by the text predicate, which has to count line breaks the way the lexer cut the tokens
     for ok, cons, key, why, loc in e2.linebreak_predicate_obligations(w):
         (r.ok(cons, why) if ok else r.bad(cons, key, why, loc))
